@@ -25,6 +25,9 @@ pub struct RtCase {
     /// C13: the durable image the first Append reopens (None = the program's own first lifetime)
     #[serde(default)]
     pub base: Option<Source>,
+    /// read schedule of the raw-copy source archives' reader (short reads are legal: the copy must not depend on them)
+    #[serde(default)]
+    pub src_read: Option<Policy>,
 }
 
 #[derive(Clone, Copy, PartialEq, Eq, Debug)]
@@ -617,7 +620,10 @@ impl Scenario for Roundtrip {
             ops.push(r.pick(&[Op::Finish, Op::Flush, Op::EndExtra, Op::Write { c: Content::Lit(Hex(b"z".to_vec())), split: vec![] }, Op::StartFile { name: "late".into(), o: Opts::default() }]).clone());
         }
         let huge = ops.iter().any(|o| matches!(o, Op::Write { c, .. } if c.is_sparse()) || matches!(o, Op::Many { .. }));
-        let mut case = RtCase { ops, sources, sink: gen_policy_short(&mut rio), read: gen_policy_short(&mut rio), bufs: gen_bufs(&mut rio), start_pos, base };
+        let mut case = RtCase { ops, sources, sink: gen_policy_short(&mut rio), read: gen_policy_short(&mut rio), bufs: gen_bufs(&mut rio), start_pos, base, src_read: None };
+        if !case.sources.is_empty() && Rng::derive(s, "src-io").chance(2, 3) {
+            case.src_read = Some(gen_policy_short(&mut Rng::derive(s, "src-io2")));
+        }
         if huge {
             // byte-at-a-time schedules over 4 GiB / 70000 entries would take hours: whole transfers only
             case.sink = Policy::Pure;
@@ -642,8 +648,12 @@ impl Scenario for Roundtrip {
         // run 1: finish; run 2: drop
         let store_f = mk_store();
         let store_d = mk_store();
-        let (out_f, io_f) = exec_on(store_f.clone(), base_img.is_some(), &c.ops, &src_stores, &c.sink, c.start_pos, true);
-        let (_out_d, io_d) = exec_on(store_d.clone(), base_img.is_some(), &c.ops, &src_stores, &c.sink, c.start_pos, false);
+        let src_pol = c.src_read.clone().unwrap_or(Policy::Pure);
+        let (out_f, io_f, sio_f) = exec_full(store_f.clone(), base_img.is_some(), &c.ops, &src_stores, &c.sink, &src_pol, c.start_pos, true);
+        let (_out_d, io_d, _sio_d) = exec_full(store_d.clone(), base_img.is_some(), &c.ops, &src_stores, &c.sink, &src_pol, c.start_pos, false);
+        if c.src_read.is_some() && stats(&sio_f).fired.values().sum::<u64>() > 0 {
+            ctx.probe("raw_copy_source_returned_short_reads");
+        }
         ctx.absorb(&io_f);
         ctx.absorb(&io_d);
         let mut m = Model::new(ModelCfg { enforce_unrepresentable: true, bzip2_level0_err: true });
@@ -665,6 +675,23 @@ impl Scenario for Roundtrip {
         if let Err(mmis) = run_model(&mut m, &c.ops, &out_f.steps, &out_f.final_res, &lookup) {
             if !owns(&prop, &mmis.class) {
                 ctx.probe("other_property:model");
+                if prop == "C01" && mmis.class == "model/expected-err-got-ok" {
+                    // C01 speaks of sequences that complete: a call the format cannot honour was ACCEPTED, every call
+                    // reported success - then the bytes must still read back as the entries that were added
+                    let all_ok = out_f.steps.iter().all(|s| s.res.is_ok()) && out_f.final_res.as_ref().map(|r| r.is_ok()).unwrap_or(true);
+                    if all_ok && !c.ops.iter().any(|o| matches!(o, Op::Append | Op::RawCopy { .. })) {
+                        let want: u64 = c.ops.iter().map(|o| match o {
+                            Op::StartFile { .. } | Op::StartAligned { .. } | Op::StartExtra { .. } | Op::AddDir { .. } | Op::AddSymlink { .. } => 1,
+                            Op::Many { n, .. } => *n as u64,
+                            _ => 0,
+                        }).sum();
+                        match zip::ZipArchive::new(SimDisk::new(store_f.clone(), Policy::Pure)) {
+                            Err(e) => return viol("C01/open-failed", format!("every writer call reported success ({}), but the archive does not open: {}", mmis.detail, zerr_pub(&e))),
+                            Ok(ar) if ar.len() as u64 != want => return viol("C01/entry-count", format!("every writer call reported success ({}), {want} entries were added, the reader lists {}", mmis.detail, ar.len())),
+                            Ok(_) => {}
+                        }
+                    }
+                }
                 return Verdict::Skip("model mismatch owned by another property".into());
             }
             return viol(to_prop(&mmis.class, &prop), mmis.detail);
@@ -849,6 +876,9 @@ impl Scenario for Roundtrip {
         }
         if !matches!(c.read, Policy::Pure) {
             out.push(RtCase { read: Policy::Pure, ..c.clone() });
+        }
+        if c.src_read.is_some() {
+            out.push(RtCase { src_read: None, ..c.clone() });
         }
         if !c.bufs.is_empty() {
             out.push(RtCase { bufs: vec![], ..c.clone() });
